@@ -38,7 +38,8 @@ MANIFEST = dict(
           'size, any seek, any whence) -- hence over ANY sequence of reads, rewinds and enable/disable toggles the total '
           'telescopes (lemma); AggregatedProgressCallback conserves received == delivered + pending and flush delivers the '
           'remainder; a download attempt reports exactly the bytes it read per chunk and takes back exactly '
-          'start_index - current_index when it is abandoned; copies report the part range length after the request returned.'),
+          'start_index - current_index when it is abandoned; copies report the part range length after the request returned.'
+          ' Every multipart part body reports through its own, freshly created progress aggregator.'),
     note=('A-BOTO: signing reads and rewinds the body between signal_not_transferring and signal_transferring; the HTTP layer '
           'calls read(amount) with amount None or >= 0. Interleaving of parts is irrelevant to a sum.'),
     technique='contract-based deductive verification: per-method delta contracts + telescoping lemma, z3',
